@@ -13,8 +13,8 @@
                one the token names and is signed by and the published set contains it; every JWKS answer is
                free of private material and has the current store's keys
 
-    Stream "exec-skeleton": one case = the lock skeleton of jwt_signer.go and the event skeleton of
-    jwtFinalizer.Execute extracted from jwt_finalizer.go.
+    Stream "exec-skeleton": one case = the lock skeleton of jwt_signer.go and the event skeleton (one event
+    list per path) of jwtFinalizer.Execute extracted from jwt_finalizer.go.
       v_corr = v_prop   Execute has exactly the critical-section structure the machine assumes
                         ([exec_shape] = the variant named by the fixes the tree is expected to have) *)
 From HV Require Export Run.Eval_C16.
@@ -132,7 +132,7 @@ Definition CC cfg f cr calls sched res span jw :=
 
 (* ------------------------------------------------------------------ exec-skeleton stream *)
 
-Record xskel_case := { x_skel : skeleton; x_exec : list xev }.
+Record xskel_case := { x_skel : skeleton; x_exec : list (list xev) }.
 Definition XS s x := {| x_skel := s; x_exec := x |}.
 
 Definition check_xskel (impl : fixes) (c : xskel_case) : verdict :=
